@@ -49,6 +49,13 @@ FLOORS = {"quick": {"judged": 100000, "program_annotations": 8000, "predicates":
 
 T = typing.TypeVar("T")
 TB = typing.TypeVar("TB", bound=int)
+_UserId = typing.NewType("_UserId", int)
+_AdminId = typing.NewType("_AdminId", _UserId)
+_Names = typing.TypeAliasType("_Names", typing.List[str])
+TN = typing.TypeVar("TN", bound=_UserId)          # type-variables bound to wrappers: resolution must go all the way down
+TNN = typing.TypeVar("TNN", bound=_AdminId)
+TA = typing.TypeVar("TA", bound=_Names)
+TCN = typing.TypeVar("TCN", _UserId, str)
 
 DOC_MAP = {cabc.Sequence: list, cabc.MutableSequence: list, cabc.Collection: list, cabc.Iterable: list, cabc.Set: set, cabc.MutableSet: set,
            cabc.Mapping: dict, cabc.MutableMapping: dict, cabc.Hashable: str}
@@ -156,6 +163,7 @@ def catalogue():
                typing.Final[int], typing.Final[typing.List[int]], typing.ClassVar[int], typing.ClassVar[typing.Dict[str, int]], typing.Any, T, TB,
                typing.Callable, cabc.Callable, typing.Callable[[int], str], typing.Callable[..., typing.Any], None, Ellipsis, inspect.Parameter.empty,
                typing.ForwardRef("int"), typing.Generic, typing.Protocol,
+               TN, TNN, TA, TCN, typing.ClassVar[TN], typing.Final[TA], typing.List[TN], dict[str, TA],
                # order-permuted twins of the unions / literals above (equal and hash-equal to them, different get_args order)
                typing.Union[str, int], str | int, typing.Union[None, int], None | int, typing.Union[str, None, int], typing.Literal[3, 2, 1],
                typing.Literal[None, "a"], typing.Optional[typing.List[int]], None | list[int], typing.Union[None, typing.List[int]]]
@@ -522,6 +530,13 @@ def judge_type(sh, pname, x, label, oracle, twin_warmed=False):
     if in_domain and not same_answer(got[1], want):
         sh.violation("predicate-disagrees", predicate=pname, obj=label, expected=short(want, 120), got=short(got[1], 120), twin_warmed=twin_warmed,
                      union_object=typing.get_origin(x) in (typing.Union, types.UnionType))
+    # resolution is complete: what unwrap() / resolve_supertype() return is not itself a wrapper they would resolve further
+    if pname in ("unwrap", "resolve_supertype"):
+        sh.count("resolution_fixpoints_checked")
+        once = got[1]
+        twice = call(pred, once)
+        if twice[0] != "ok" or not same_answer(twice[1], once) or (pname == "unwrap" and (hasattr(once, "__supertype__") or isinstance(once, typing.TypeVar))):
+            sh.violation("resolution-incomplete", predicate=pname, obj=label, once=short(once, 120), twice=short(twice, 120))
     # stability: warm repeat and after cache_clear
     sh.count("stability_checked")
     again = call(pred, x)
@@ -732,10 +747,11 @@ def run_shard(sh):
             sh.count("spelling_groups_checked", 0)
     # random re-wrapping: deeper NewType/alias chains over catalogue entries (totality/stability + agreement via resolve)
     n = per_shard(plan["rewraps"], sh.nshards, sh.shard)
+    wrappable = [(lb, o) for lb, o in objs if not lb.startswith("special:")]  # qualifiers / unions / TypeVars are not types a NewType may wrap
 
     def case(i):
         rng = case_rng(sh, i)
-        label, x = rng.choice(objs[: len(objs) - 30])
+        label, x = rng.choice(wrappable)
         chain = []
         y = x
         try:
